@@ -570,7 +570,10 @@ func ruleTLSUse(c *Ctx) {
 		}
 		cfgPath := accessPath(info, cfgExpr)
 		if w.field != "" {
-			if n, ok := isOwnerTLS(info, cfgExpr); !ok || n != w.field {
+			// a local bound once to the owner's field (the parameter of an inlined
+			// dial helper) stands for the field
+			ownerExpr := ast.Unparen(p.Deref(f, cfgExpr))
+			if n, ok := isOwnerTLS(info, ownerExpr); !ok || n != w.field {
 				c.R.Violate("R-TLS/use", p.Pos(wrapN.Ast), f.Name, construct, "the connection is wrapped with "+exprStr(cfgExpr)+" instead of "+w.field, nil)
 				continue
 			}
